@@ -3,7 +3,9 @@
 //! Case input:
 //!   (fmt <width> x<text>)      format the definition parsed from <text> at that width
 //!   (fmt1 x<text>)             the width-independent renderings
-//!   (cli <width|-> <color t|f> x<text>) `varlink --color=on|off format [-c <width>] FILE` (the file holds <text>)
+//!   (cli <width|-> <color t|f> x<text> [file|stdin|fifo])
+//!                                       `varlink --color=on|off format [-c <width>] FILE`; FILE is a regular file
+//!                                       holding <text>, or /dev/stdin behind a pipe, or a named pipe fed with <text>
 //!   (conc <iters> (<width> x<text>)+)   one thread per (width, text): each renders its own definition
 //!                                       <iters> times (plain, colored, to_string() in rotation), all
 //!                                       threads at once, colour forced on
@@ -38,9 +40,17 @@ fn case_fmt1(text: &str, tags: &[&str]) -> Case {
 }
 
 fn case_cli(w: Option<usize>, color: bool, text: &str, tag: &str) -> Case {
+    case_cli_via(w, color, text, tag, "file")
+}
+
+fn case_cli_via(w: Option<usize>, color: bool, text: &str, tag: &str, via: &str) -> Case {
+    let mut v = vec![w.map(sx::nat).unwrap_or_else(|| sx::atom("-")), sx::boolean(color), sx::xs(text)];
+    if via != "file" {
+        v.push(sx::atom(via));
+    }
     Case {
-        input: sx::tagged("cli", vec![w.map(sx::nat).unwrap_or_else(|| sx::atom("-")), sx::boolean(color), sx::xs(text)]),
-        tags: vec!["cli".into(), format!("cli:color={}", color), tag.to_string()],
+        input: sx::tagged("cli", v),
+        tags: vec!["cli".into(), format!("cli:color={}", color), tag.to_string(), format!("cli:via={}", via)],
     }
 }
 
@@ -79,7 +89,7 @@ fn width_tag(w: usize) -> &'static str {
     }
 }
 
-const HUGE: &[usize] = &[201, 1000, 1_000_000, usize::MAX - 7, usize::MAX];
+const HUGE: &[usize] = &[201, 1000, 1_000_000, (isize::MAX as usize) + 1, usize::MAX - 7, usize::MAX];
 
 impl Suite for FmtSuite {
     fn generate(&self, ctx: &Ctx) -> Vec<Case> {
@@ -196,6 +206,28 @@ impl Suite for FmtSuite {
                     cases.push(case_cli(w, i % 2 == 0, &t, "cli:small"));
                 }
             }
+            //   FILE need not be a regular file: /dev/stdin behind a pipe, a named pipe
+            for i in 0..(if ctx.thorough { 30 } else { 8 }) {
+                let t = gen_valid_text(&mut rng, 4, 2, i % 3).1.concat();
+                cases.push(case_cli_via(Some(80), false, &t, "cli:not-a-regular-file", "stdin"));
+                cases.push(case_cli_via(None, i % 2 == 0, &t, "cli:not-a-regular-file", "fifo"));
+            }
+            cases.push(case_cli_via(Some(40), false, &big_text(&[8192, 16384], '\u{20ac}', 1), "cli:not-a-regular-file", "stdin"));
+            cases.push(case_cli_via(Some(40), false, &big_text(&[8192, 16384], '\u{20ac}', 1), "cli:not-a-regular-file", "fifo"));
+            //   how the file ends / begins: last line a comment with and without its line end (the
+            //   library decides what is a definition, the tool must agree), leading BOM, trailing blanks
+            for (k, end) in ["", "\n", "\n# last\n", "\n# last", "\n# last\r\n", "\n# last\r", "\n# last\u{2028}", "# c\n", "# c", " ", "\t", "\n\n \n", "\u{a0}", "\u{feff}", "\u{3000}\n"].iter().enumerate() {
+                for start in ["", "\u{feff}", "\u{feff}# doc\n", " \n", "\t"] {
+                    let t = format!("{}interface a.b\nmethod M{}() -> (){}", start, k, end);
+                    cases.push(case_cli(Some(80), false, &t, "cli:file-ends"));
+                }
+            }
+            //   widths no allocation can satisfy, through the child process (an abort is an exit status)
+            for w in [usize::MAX, (isize::MAX as usize) + 1, isize::MAX as usize, 1usize << 62, 1usize << 40, 1usize << 32] {
+                let t = "# d\ninterface a.b\ntype T (a: int, b: (c: ?[]string))\nmethod M(a: int) -> (b: (x, y))\nerror E ()";
+                cases.push(case_cli(Some(w), false, t, "cli:huge-width"));
+                cases.push(case_cli(Some(w), true, t, "cli:huge-width"));
+            }
             for (k, (_, t, _)) in valid.iter().enumerate() {
                 if k % 29 == 0 {
                     cases.push(case_cli(Some(80), false, t, "cli:deep"));
@@ -286,24 +318,55 @@ impl Suite for FmtSuite {
                     vec![sx::xs(&idl.get_oneline()), sx::xs(&idl.get_oneline_colored()), sx::xs(&idl.to_string())],
                 )
             }
-            (Some("cli"), 4) => {
+            (Some("cli"), 4) | (Some("cli"), 5) => {
                 let (w, color, text) = match (l[1].as_atom(), l[2].as_opt_bool(), l[3].as_str()) {
                     (Some(w), Some(Some(c)), Some(t)) => (w.parse::<usize>().ok(), c, t),
                     _ => return sx::atom("bad-case"),
                 };
+                let via = l.get(4).and_then(|a| a.as_atom()).unwrap_or("file").to_string();
                 let path = format!("{}/fmt-cli-case.varlink", ctx.out_dir);
-                std::fs::write(&path, text.as_bytes()).expect("write case file");
+                let _ = std::fs::remove_file(&path);
                 let mut cmd = std::process::Command::new(cli_path());
                 cmd.arg(if color { "--color=on" } else { "--color=off" }).arg("format");
                 if let Some(w) = w {
                     cmd.arg("-c").arg(format!("{}", w));
                 }
-                let out = cmd
-                    .arg(&path)
-                    .env("CLICOLOR_FORCE", "1")
-                    .env_remove("NO_COLOR")
-                    .output()
-                    .expect("run varlink");
+                cmd.env("CLICOLOR_FORCE", "1").env_remove("NO_COLOR").stdout(std::process::Stdio::piped()).stderr(std::process::Stdio::piped());
+                let out = match via.as_str() {
+                    "stdin" => {
+                        let mut child = cmd.arg("/dev/stdin").stdin(std::process::Stdio::piped()).spawn().expect("run varlink");
+                        let mut si = child.stdin.take().unwrap();
+                        let data = text.clone().into_bytes();
+                        let h = std::thread::spawn(move || {
+                            use std::io::Write;
+                            let _ = si.write_all(&data);
+                        });
+                        let o = child.wait_with_output().expect("wait varlink");
+                        let _ = h.join();
+                        o
+                    }
+                    "fifo" => {
+                        let c = std::ffi::CString::new(path.clone()).unwrap();
+                        if unsafe { libc::mkfifo(c.as_ptr(), 0o600) } != 0 {
+                            return sx::atom("mkfifo-failed");
+                        }
+                        let child = cmd.arg(&path).stdin(std::process::Stdio::null()).spawn().expect("run varlink");
+                        let data = text.clone().into_bytes();
+                        let p2 = path.clone();
+                        // opening for writing blocks until the tool opens the pipe for reading
+                        std::thread::spawn(move || {
+                            use std::io::Write;
+                            if let Ok(mut f) = std::fs::OpenOptions::new().write(true).open(&p2) {
+                                let _ = f.write_all(&data);
+                            }
+                        });
+                        child.wait_with_output().expect("wait varlink")
+                    }
+                    _ => {
+                        std::fs::write(&path, text.as_bytes()).expect("write case file");
+                        cmd.arg(&path).stdin(std::process::Stdio::null()).output().expect("run varlink")
+                    }
+                };
                 let _ = std::fs::remove_file(&path);
                 let lib = match IDL::try_from(text.as_str()) {
                     Ok(i) => sx::xs(&if color { i.get_multiline_colored(0, w.unwrap_or(80)) } else { i.get_multiline(0, w.unwrap_or(80)) }),
